@@ -1,0 +1,140 @@
+//go:build verif
+
+// Contracts for the govc verifier (see /verif/DESIGN.md). Comment-only.
+// TCPCLv4 message layouts (draft-ietf-dtn-tcpclv4): all integers big-endian, one header byte first.
+
+package msgs
+
+// XFER_ACK: header 0x02 | flags u8 | transfer id u64 | acknowledged length u64
+// govc:spec encAck(s any, p uint64, flags uint8, tid uint64, n uint64) bool = tokFix(s, p, 1, 0x02) && tokFix(s, p+1, 1, flags) && tokFix(s, p+2, 8, tid) && tokFix(s, p+3, 8, n)
+
+// govc:func (DataAcknowledgementMessage).Marshal property C17 C11
+//@ assigns wstream(w)
+//@ ensures result == nil ==> wpos(w) == old(wpos(w)) + 4 && encAck(w, old(wpos(w)), uint8(dam.Flags), dam.TransferId, dam.AckLen)
+
+// govc:func (*DataAcknowledgementMessage).Unmarshal property C17 C11 C04
+//@ assigns rstream(r), *dam
+//@ ensures result == nil ==> tokFix(r, old(rpos(r)), 1, 0x02) && rpos(r) == old(rpos(r)) + 4
+//@ case U:
+//@ ghost flags uint8
+//@ ghost tid uint64
+//@ ghost n uint64
+//@ requires ioOK() && encAck(r, rpos(r), flags, tid, n)
+//@ ensures result == nil && uint8(dam.Flags) == flags && dam.TransferId == tid && dam.AckLen == n && rpos(r) == old(rpos(r)) + 4
+
+// XFER_REFUSE: header 0x03 | reason u8 | transfer id u64
+// govc:spec encRefuse(s any, p uint64, reason uint8, tid uint64) bool = tokFix(s, p, 1, 0x03) && tokFix(s, p+1, 1, reason) && tokFix(s, p+2, 8, tid)
+
+// govc:func (TransferRefusalMessage).Marshal property C17 C11
+//@ assigns wstream(w)
+//@ ensures result == nil ==> wpos(w) == old(wpos(w)) + 3 && encRefuse(w, old(wpos(w)), uint8(trm.ReasonCode), trm.TransferId)
+
+// govc:func (*TransferRefusalMessage).Unmarshal property C17 C11 C04
+//@ assigns rstream(r), *trm
+//@ ensures result == nil ==> tokFix(r, old(rpos(r)), 1, 0x03) && rpos(r) == old(rpos(r)) + 3 && trm.ReasonCode <= 6
+//@ case U:
+//@ ghost reason uint8
+//@ ghost tid uint64
+//@ requires ioOK() && encRefuse(r, rpos(r), reason, tid) && reason <= 6
+//@ ensures result == nil && uint8(trm.ReasonCode) == reason && trm.TransferId == tid && rpos(r) == old(rpos(r)) + 3
+
+// govc:func (TransferRefusalCode).IsValid property C17
+//@ assigns nothing
+//@ ensures result == (trc <= 6)
+
+// MSG_REJECT: header 0x06 | reason u8 (1..3) | rejected message header u8
+// govc:spec encReject(s any, p uint64, reason uint8, hdr uint8) bool = tokFix(s, p, 1, 0x06) && tokFix(s, p+1, 1, reason) && tokFix(s, p+2, 1, hdr)
+
+// govc:func (MessageRejectionMessage).Marshal property C17
+//@ assigns wstream(w)
+//@ ensures result == nil ==> wpos(w) == old(wpos(w)) + 3 && encReject(w, old(wpos(w)), uint8(mrm.ReasonCode), mrm.MessageHeader)
+
+// govc:func (*MessageRejectionMessage).Unmarshal property C17 C04
+//@ assigns rstream(r), *mrm
+//@ ensures result == nil ==> tokFix(r, old(rpos(r)), 1, 0x06) && rpos(r) == old(rpos(r)) + 3 && mrm.ReasonCode >= 1 && mrm.ReasonCode <= 3
+//@ case U:
+//@ ghost reason uint8
+//@ ghost hdr uint8
+//@ requires ioOK() && encReject(r, rpos(r), reason, hdr) && reason >= 1 && reason <= 3
+//@ ensures result == nil && uint8(mrm.ReasonCode) == reason && mrm.MessageHeader == hdr && rpos(r) == old(rpos(r)) + 3
+
+// govc:func (MessageRejectionReason).IsValid property C17
+//@ assigns nothing
+//@ ensures result == (mrr >= 1 && mrr <= 3)
+
+// KEEPALIVE: header 0x04
+// govc:func (KeepaliveMessage).Marshal property C17
+//@ assigns wstream(w)
+//@ ensures result == nil ==> wpos(w) == old(wpos(w)) + 1 && tokFix(w, old(wpos(w)), 1, 0x04)
+
+// govc:func (*KeepaliveMessage).Unmarshal property C17 C04
+//@ assigns rstream(r)
+//@ ensures result == nil ==> tokFix(r, old(rpos(r)), 1, 0x04) && rpos(r) == old(rpos(r)) + 1
+//@ case U:
+//@ requires ioOK() && tokFix(r, rpos(r), 1, 0x04)
+//@ ensures result == nil && rpos(r) == old(rpos(r)) + 1
+
+// SESS_TERM: header 0x05 | flags u8 | reason u8 (0..5)
+// govc:spec encTerm(s any, p uint64, flags uint8, reason uint8) bool = tokFix(s, p, 1, 0x05) && tokFix(s, p+1, 1, flags) && tokFix(s, p+2, 1, reason)
+
+// govc:func (SessionTerminationMessage).Marshal property C17
+//@ assigns wstream(w)
+//@ ensures result == nil ==> wpos(w) == old(wpos(w)) + 3 && encTerm(w, old(wpos(w)), uint8(stm.Flags), uint8(stm.ReasonCode))
+
+// govc:func (*SessionTerminationMessage).Unmarshal property C17 C04
+//@ assigns rstream(r), *stm
+//@ ensures result == nil ==> tokFix(r, old(rpos(r)), 1, 0x05) && stm.ReasonCode <= 5
+//@ case U:
+//@ ghost flags uint8
+//@ ghost reason uint8
+//@ requires ioOK() && encTerm(r, rpos(r), flags, reason) && reason <= 5
+//@ ensures result == nil && uint8(stm.Flags) == flags && uint8(stm.ReasonCode) == reason && rpos(r) == old(rpos(r)) + 5 - 2
+
+// govc:func (SessionTerminationCode).IsValid property C17
+//@ assigns nothing
+//@ ensures result == (stc <= 5)
+
+// XFER_SEGMENT: header 0x01 | flags u8 | transfer id u64 | extension items length u32 (0) | data length u64 | data
+// govc:func (DataTransmissionMessage).Marshal property C17 C11
+//@ requires w != nil
+//@ assigns wstream(w)
+//@ ensures result == nil ==> tokFix(w, old(wpos(w)), 1, 0x01) && tokFix(w, old(wpos(w))+1, 1, uint8(dtm.Flags)) && tokFix(w, old(wpos(w))+2, 8, dtm.TransferId) && tokFix(w, old(wpos(w))+3, 4, 0) && tokFix(w, old(wpos(w))+4, 8, len(dtm.Data))
+//@ ensures result == nil && len(dtm.Data) > 0 ==> wpos(w) == old(wpos(w)) + 6 && tokBlk(w, old(wpos(w))+5, dtm.Data)
+//@ ensures result == nil && len(dtm.Data) == 0 ==> wpos(w) == old(wpos(w)) + 5
+
+// govc:func (*DataTransmissionMessage).Unmarshal property C17 C11 C04
+//@ alloccap 1048576
+//@ assigns rstream(r), *dtm
+//@ ensures result == nil ==> tokFix(r, old(rpos(r)), 1, 0x01)
+//@ case U:
+//@ ghost flags uint8
+//@ ghost tid uint64
+//@ ghost n uint64
+//@ requires ioOK() && n > 8 && n <= 1048576 && dtm.Data == nil
+//@ requires tokFix(r, rpos(r), 1, 0x01) && tokFix(r, rpos(r)+1, 1, flags) && tokFix(r, rpos(r)+2, 8, tid) && tokFix(r, rpos(r)+3, 4, 0) && tokFix(r, rpos(r)+4, 8, n) && tokKind(r, rpos(r)+5) == 3 && tokN(r, rpos(r)+5) == n
+//@ ensures result == nil && uint8(dtm.Flags) == flags && dtm.TransferId == tid
+//@ ensures len(dtm.Data) == n && rpos(r) == old(rpos(r)) + 6
+//@ ensures tokBlk(r, old(rpos(r))+5, dtm.Data)
+
+// SESS_INIT: header 0x07 | keepalive u16 | segment MRU u64 | transfer MRU u64 | node id length u16 | node id | extension items length u32 (0)
+// govc:spec encInitHead(s any, p uint64, ka uint16, smru uint64, tmru uint64, idlen uint64) bool = tokFix(s, p, 1, 0x07) && tokFix(s, p+1, 2, ka) && tokFix(s, p+2, 8, smru) && tokFix(s, p+3, 8, tmru) && tokFix(s, p+4, 2, idlen)
+
+// govc:func (SessionInitMessage).Marshal property C17
+//@ requires w != nil && len(si.NodeId) <= 65535 && len(si.NodeId) > 0
+//@ assigns wstream(w)
+//@ ensures result == nil ==> encInitHead(w, old(wpos(w)), si.KeepaliveInterval, si.SegmentMru, si.TransferMru, len(si.NodeId))
+//@ ensures result == nil ==> tokStr(w, old(wpos(w)) + 5, si.NodeId) && tokFix(w, old(wpos(w)) + 6, 4, 0) && wpos(w) == old(wpos(w)) + 7
+
+// govc:func (*SessionInitMessage).Unmarshal property C17 C04
+//@ alloccap 1048576
+//@ assigns rstream(r), *si
+//@ ensures result == nil ==> tokFix(r, old(rpos(r)), 1, 0x07)
+//@ case U:
+//@ ghost ka uint16
+//@ ghost smru uint64
+//@ ghost tmru uint64
+//@ ghost id string
+//@ requires ioOK() && len(id) > 8 && len(id) <= 65535
+//@ requires encInitHead(r, rpos(r), ka, smru, tmru, len(id)) && tokStr(r, rpos(r)+5, id) && tokFix(r, rpos(r)+6, 4, 0)
+//@ ensures result == nil && si.KeepaliveInterval == ka && si.SegmentMru == smru && si.TransferMru == tmru && rpos(r) == old(rpos(r)) + 7
+//@ ensures si.NodeId == id
